@@ -94,7 +94,7 @@ def run_case(case: Case):
         oa.pop('spans', None); ob.pop('spans', None)      # source positions belong to a spelling, not to its meaning
         if oa != ob:
             rec['status'] = 'monitor-fail'
-            rec['why'] = 'variant behaves differently'
+            rec['why'] = f'variant behaves differently [tag={case.tag}]'
             rec['detail'] = {'variant': v, 'reference': small(a), 'variant_outcome': small(b)}
             return rec
     if case.monitor:
